@@ -111,7 +111,7 @@ ADDED = {
     'C21': 'Also: errors in the first statement of an event-trap routine, STOP/Break and CONT inside the handler, a handler that evaluates nothing before RESUME n.',
     'C23': 'Also: resets issued from inside an unfinished error handler, event-trap routine, loops and subroutines (by the program or after Ctrl+Break), FIELDed COMMON variables, shared storage of COMMON strings after CHAIN.',
     'C24': 'Also: refused statements (OPEN, SAVE, KILL, NAME on an open file) must leave the host file unchanged; suspend/resume with files open; CR LF at the edges of quoted strings.',
-    'C25': 'Also: PUT/GET that fail part-way with implicit record numbers (locks, ACCESS, host faults), statements that reset the FIELD buffers while the file stays open (CHAIN, CLEAR, NEW, typed line, MERGE), program mode.',
+    'C25': 'Also: PUT/GET that fail part-way with implicit record numbers (locks, ACCESS, host faults), statements that reset the FIELD buffers while the file stays open (CHAIN, CLEAR, NEW, typed line, MERGE), program mode, record numbers with a fraction.',
     'C26': 'Also: unnumbered opens (SAVE, LIST, BSAVE) on open files, three file numbers on one file, refused opens leave the file unchanged.',
     'C27': 'Also: the spelling of the mount path (trailing/doubled separators, dot elements, symlinks, relative paths), surplus .., suspend/resume with files open while another party unmounts, renames or removes things, sentinels in the process working directory.',
     'C28': 'Also: directory prefixes with dots, prefix-named sibling directories and a model of the drive cwd audited after every directory statement.',
@@ -120,9 +120,9 @@ ADDED = {
     'C35': 'Also: Ctrl+Break at a seeded poll inside long drawing and printing statements, line editing of wrapped lines around the VIEW PRINT area, DBCS text.',
     'C36': 'Also: a per-page reference for text pages with PCOPY and page switches, LOCATE that fails (each argument legal/illegal/omitted) followed by a bare line break.',
     'C37': 'Also: Ctrl+Break typed between keys (also in the same poll) with CONT, for INKEY$ and INPUT$ readers.',
-    'C38': 'Also: errors at the head of a trap routine and inside the error handler, STOP/CONT, suspend/resume while stopped.',
+    'C38': 'Also: errors at the head of a trap routine and inside the error handler, STOP/CONT, suspend/resume while stopped, trap routines left with RETURN <line>, an error handler abandoned with RUN <line> into a second stage that arms the traps again.',
     'C39': 'Also: signed zeros, two values alive in one expression, RANDOMIZE that fails part-way or is answered at the prompt.',
-    'C40': 'Also: suspensions inside waiting INPUT statements (alone and after a boundary suspension; final data compared), sessions with a text-file encoding.',
+    'C40': 'Also: suspensions inside waiting INPUT statements (alone and after a boundary suspension; final data compared), sessions with a text-file encoding, APPEND files suspended at position 0 (new or empty file, before the first write).',
     'C41': 'Also: the converter of a resumed session (saved and rebuilt).',
     'C42': 'Also: referenced variables placed at steered addresses, programs with STOP/CONT, state carried across Break/STOP/error, suspend/resume with music queued and time passing.',
     'C44': 'Also: suspend/resume, values set from an operand that blocks while the user types.',
